@@ -1,6 +1,7 @@
 package main
 
 import (
+	"sort"
 	"fmt"
 	"go/ast"
 	"go/constant"
@@ -680,6 +681,52 @@ func (ev *Env) call(x *ast.CallExpr) Val {
 			specFail("unknown type %s", s)
 		}
 		return Val{T: t, L: []string{v.L[1]}}
+	case "unboxv":
+		// unboxv(iface, "T"): the boxed value of non-pointer type T held by the interface
+		v := arg(0)
+		lit, ok := x.Args[1].(*ast.BasicLit)
+		if !ok {
+			specFail("unboxv needs a type string")
+		}
+		ts, _ := strconv.Unquote(lit.Value)
+		t := ev.fx.E.typeByName(ts)
+		if t == nil {
+			specFail("unknown type %s", ts)
+		}
+		bk := "box:" + typeKey(t)
+		ls := leaves(t)
+		r := Val{T: t, L: make([]string, len(ls))}
+		for i, l := range ls {
+			k := "H|" + bk + "|" + l.Path
+			ev.fx.regComp(k, "(Array Int "+l.Sort+")")
+			r.L[i] = sel(ev.cur.get(ev.fx, k), v.L[1])
+		}
+		return r
+	case "unchangedAll":
+		// every heap and ghost component is as in the entry state (for objects that existed then)
+		var cs []string
+		alloc0 := ev.pre.get(ev.fx, "G|alloc")
+		var ks []string
+		for k := range ev.post.comp {
+			ks = append(ks, k)
+		}
+		sort.Strings(ks)
+		for _, k := range ks {
+			if k == "G|alloc" || k == "G|lock" || strings.HasPrefix(k, "R|") {
+				continue
+			}
+			t1, t0 := ev.post.get(ev.fx, k), ev.pre.get(ev.fx, k)
+			if t1 == t0 {
+				continue
+			}
+			if strings.HasPrefix(k, "G|") {
+				cs = append(cs, eq(t1, t0))
+				continue
+			}
+			r := ev.fx.freshName("q_u")
+			cs = append(cs, fmt.Sprintf("(forall ((%s Int)) (=> (and (< 0 %s) (< %s %s)) (= (select %s %s) (select %s %s))))", r, r, r, alloc0, t1, r, t0, r))
+		}
+		return boolV(and(cs...))
 	case "bigval":
 		v := arg(0)
 		return intV(sel(ev.cur.get(ev.fx, bigvalComp), ev.one(v, "bigval")))
